@@ -683,6 +683,8 @@ pub struct RunRecord {
     pub hist: Hist,
     /// Ground truth per agent incarnation.
     pub truth: Vec<Vec<(u64, TruthEv)>>,
+    /// (step, simulated ms) of the events the model agent's handlers recorded, per incarnation.
+    pub handler_times: Vec<Vec<(u64, u64)>>,
     pub store_log: Vec<(u64, StoreOp)>,
     pub store_final: Option<StoreImage>,
     /// Durable image at the moment the first incarnation ended.
@@ -931,6 +933,7 @@ fn start_drain(inc: &Incarnation) {
 
 pub async fn run_scenario(sc: &AgentScenario, keep_log: bool) -> RunRecord {
     let t0 = tokio::time::Instant::now();
+    super::model::set_run_t0(t0);
     let k = &sc.knobs;
     let sched = Scheduler::new(Rng::new(k.sched_seed), policy_of(&k.policy), 2_000);
     let mut exec = Exec::new(sched, EventLog::new(keep_log));
@@ -960,6 +963,7 @@ pub async fn run_scenario(sc: &AgentScenario, keep_log: bool) -> RunRecord {
         scenario: sc.clone(),
         hist: Hist::default(),
         truth: vec![],
+        handler_times: vec![],
         store_log: vec![],
         store_final: None,
         store_at_restart: None,
@@ -1187,6 +1191,7 @@ pub async fn run_scenario(sc: &AgentScenario, keep_log: bool) -> RunRecord {
     incs.push(inc);
     for i in &incs {
         rec.truth.push(i.truth.lock().unwrap().events.clone());
+        rec.handler_times.push(i.truth.lock().unwrap().handler_times.clone());
         rec.agent_ends.push(i.end.borrow().clone());
     }
     {
